@@ -196,6 +196,10 @@ class ExcelCompiler:
             else:
                 return a_cell.value
 
+        # keys left over from an earlier save would keep their old position
+        for key in ('cycles', 'excel_hash', 'cell_map', 'filename'):
+            extra_data.pop(key, None)
+
         extra_data.update(dict(
             cycles=self.cycles,
             excel_hash=self._excel_file_md5_digest,
